@@ -18,8 +18,8 @@ def nontrivial(beh):
 def gen_consts(steps, **over):
     c = dict(InCalls=[('ia1', 1), ('ia2', 1), ('ia2', 2)], OutAliases=['oa1', 'oa2'], Vals=['v1'],
              InFaults=['none', 'keyFail', 'prepFail'], OutFaults=['none', 'prepFail'],
-             Bodies=['plain', 'interrupt', 'discards'], OutResults=[('val', 'v1'), ('exc', 'E1'), ('int', 'BI')],
-             Ctl=['discard'], Ends=['ret', 'raise', 'interrupt'],
+             Bodies=['plain', 'interrupt', 'discards', 'forces'], OutResults=[('val', 'v1'), ('exc', 'E1'), ('int', 'BI')],
+             Ctl=['discard', 'force'], Ends=['ret', 'raise', 'interrupt'],
              Classes=[K('K1'), K('K2', rate='frac')], Draws=['low', 'high'], SaveFails=[False, True],
              MaxSteps=steps, MaxRuns=2, MaxRecs=1, Modes=['same'])
     c.update(over)
@@ -38,7 +38,7 @@ def run(rep, tier, seed):
     try:
         if tier == 'quick':
             chk.check('chk', gen_consts(3, Vals=['v1', 'v2']), invariants=INVS)
-            ex = chk.generate('gen2', gen_consts(2), cassettes=('memory', 'file'), n_conc=1, all_paths=True, cap=30000)
+            ex = chk.generate('gen2', gen_consts(2), cassettes=('memory', 'file'), n_conc=1, all_paths=True, cap=60000)
             chk.generate('gen3', gen_consts(3, Classes=[K('K1')], Draws=['low'], InCalls=[('ia2', 1)],
                                             OutAliases=['oa2']),
                          cassettes=('memory',), n_conc=1, sample=1500)
